@@ -10,3 +10,6 @@ import Props.C09
 import Props.C03
 import Props.C01
 import Props.C20
+import Props.C16
+import Props.C11
+import Props.C12
